@@ -8,6 +8,7 @@
 From Coq Require Import List Arith ZArith.
 Require Import SP.Model.Sched SP.Proofs.SchedFinal.
 Require Import SP.Model.Alap SP.Proofs.AlapProofs.
+Require Import SP.Model.Ledger SP.Model.SubSlot SP.Proofs.SubSlotProofs.
 
 Theorem C04_asap : forall p t f e, leaf_dates (schedule p) t = Some (f, e) -> t_pin (task_of p t) = None ->
   t_lb (task_of p t) <= f /\
@@ -39,3 +40,16 @@ Example C04_alap_example :
   let p := {| p_tasks := t0 :: t1 :: nil; p_res := r :: nil; p_limits := nil; p_upper := 8 |} in
   alap_results p = Some (4, 6) :: Some (7, 8) :: nil.
 Proof. vm_compute. reflexivity. Qed.
+
+(* ---- second granularity (Model/SubSlot.v: arbitrary efforts, efficiencies and gaps, tasks that begin and end
+   inside slots and share them; one resource per task, no limits), for every well-formed project
+   (wf: slot length > 0, efficiencies > 0, a task with work has a positive effort) *)
+Theorem C04_subslot : forall p, wf p -> forall t f e, sleaf_dates (sschedule p) t = Some (f, e) ->
+  (s_pin (stask_of p t) = None ->
+     (s_lb (stask_of p t) <= f)%Z /\
+     forall d, In d (s_deps (stask_of p t)) ->
+       exists s' e', sdates p (sschedule p) (sd_task d) = Some (s', e') /\
+                     ((if sd_onstart d then s' else e') + sd_gap d <= f)%Z) /\
+  (forall s, s_pin (stask_of p t) = Some s -> (s <= f)%Z /\ (s_mile (stask_of p t) = true -> f = s)).
+Proof. exact subslot_deps. Qed.
+Print Assumptions C04_subslot.
